@@ -103,6 +103,13 @@ where
         // `log_d` is ceil(log2 (d + 1)), which is the number of steps to compute all of the challenges
         let log_d = ark_std::log2(d + 1) as usize;
 
+        // A proof with more rounds than the key has would yield a check polynomial with more
+        // coefficients than `vk.comm_key` has elements, which `cm_commit` silently truncates.
+        if proof.l_vec.len() != proof.r_vec.len() || proof.l_vec.len() != log_d {
+            end_timer!(check_time);
+            return None;
+        }
+
         let mut combined_commitment_proj = G::Group::zero();
         let mut combined_v = G::ScalarField::zero();
 
